@@ -966,6 +966,9 @@ def main(ctx):
                 return rec.fail(case, "%s on %d rows: field %r differs from the input in rows %r" % (op, n, nm, bad[:5].tolist()))
         rec.ok(case, outcome="long:%s" % op, nontrivial=True)
 
+    from mc.longarr import marks as _marks
+    # universal marks (mc/longarr.py): multiples of as many block sizes as possible, each with mark-1, mark, mark+1
+    LONGN = sorted({4096, 65537, 99999, 100000, 100001} | {m + d for m in _marks(ctx) for d in (-1, 0, 1)})
     lfunits = [(op, n) for op in ("extract", "remove", "reorder", "add", "combine")
-               for n in (4096, 65537, 99999, 100000, 100001, 200000, 200001, 1000001)]
-    ctx.lattice("long-arrays", lfunits, one_longfields, bounds=dict(lengths=[4096, 65537, 99999, 100000, 100001, 200000, 200001, 1000001]))
+               for n in LONGN]
+    ctx.lattice("long-arrays", lfunits, one_longfields, bounds=dict(lengths=LONGN))
